@@ -4,6 +4,8 @@
 cd "$(dirname "$0")" || exit 2
 python3 tools/py2lean || exit 2
 cd lean || exit 2
-lake build TinyFlux Driver specdriver modeldriver 2>&1 | tail -5
+lake build TinyFlux specdriver modeldriver 2>&1 | tail -5
+# the property theorems and their audits, so that the first check does not pay for the build
+lake build $(for i in 01 02 03 04 05 06 07 08 09 10 11 12 13 14 15 16 17 18; do printf "TinyFlux.Audit.C%s " $i; done) 2>&1 | grep -v "AUDIT" | tail -5
 # a theorem that does not build on a changed tree is reported by the checks, not here
 exit 0
